@@ -10,9 +10,9 @@ git -C /repo worktree add -q --detach $wt HEAD || exit 2
 trap 'git -C /repo worktree remove --force '$wt'; git -C /repo worktree prune' EXIT
 ( cd $wt && git apply "$patch" ) || { echo "patch does not apply"; exit 2; }
 ( cd $wt && export GOFLAGS=-mod=mod GOPROXY=off GOSUMDB=off && go build ./... ) || { echo "patched tree does not build"; exit 2; }
-cd /verif
+cd ${SENS_VERIF:-/verif}
 for p in "$@"; do
-  out=$(VERIF_REPO=$wt VERIF_OUT=/verif/out2 VERIF_QUICK_BUDGET=${SENS_BUDGET:-20} ./check $p quick 2>/dev/null)
+  out=$(VERIF_REPO=$wt VERIF_OUT=${SENS_OUT:-/verif/out2} VERIF_QUICK_BUDGET=${SENS_BUDGET:-20} ./check $p quick 2>/dev/null)
   rc=$?
   echo "== $p rc=$rc"
   echo "$out" | grep -E "^(VIOLATION|violation:|OK|KNOWN|HARNESS)" | cut -c1-260
